@@ -101,8 +101,35 @@ def case(mode, stream, manifest, params, now=NOW, defaults=None):
     return c
 
 
+# requests that are served *between* two identical probes (one per mode x option family; the on-demand ones
+# name a DRM without locations, as a URL parameter and through a restricted / unsupported template)
+DISTURB = [
+    case("odvod", "bbb", "hand_made.mpd", {"drm": "playready"}),
+    case("odvod", "bbb", "hand_made.mpd", {"drm": "all", "events": "ping", "ping__value": "o&d"}),
+    case("odvod", "bbb", "hand_made.mpd", {"drm": "marlin,clearkey-cenc", "bugs": "saio"}),
+    case("odvod", "bbb", "manifest_vod_aiv.mpd", {"drm": "playready"}),
+    case("odvod", "tears", "hand_made.mpd", {"leeway": "0"}, defaults="B"),
+    case("vod", "bbb", "manifest_b.mpd", {"drm": "clearkey", "verr": "503=2", "failures": "0"}),
+    case("vod", "bbb", "manifest_a.mpd", {"drm": "playready", "events": "ping"}),
+    case("live", "bbb", "hand_made.mpd", {"drm": "all-moov", "start": "today", "depth": "30", "vcorrupt": "07:08:00Z"}),
+    case("live", "tears", "manifest_n.mpd", {"events": "scte35", "scte35__value": "x y"}, defaults="C"),
+    case("live", "bbbaref", "hand_made.mpd", {"start": "epoch", "aerr": "404=3", "playready__la_url": "https%3A%2F%2Fd%2F"}),
+]
+PROBES = [
+    case("vod", "bbb", "hand_made.mpd", {"drm": "playready"}),
+    case("live", "bbb", "hand_made.mpd", {"drm": "all", "start": "today", "depth": "60"}),
+    case("vod", "bbb", "manifest_e.mpd", {"drm": "marlin,clearkey"}),
+    case("live", "bbb", "hand_made.mpd", {"drm": "playready-cenc-pro", "playready__version": "2.0"}),
+    case("odvod", "bbb", "hand_made.mpd", {"drm": "clearkey", "leeway": "0"}),
+    case("live", "tears", "hand_made.mpd", {}, defaults="B"),
+    case("vod", "bbb", "hand_made.mpd", {k: v for k, v in RICH.items() if k != "start"}),
+]
+
+
 def grid(thorough: bool = False):
     out = []
+    # 0. the disturbing requests come first, so that the grid is also a history for everything after it
+    out += [dict(c) for c in DISTURB]
     # 1. every option on its own, every listed spelling (URL side), on the richest template
     for cgi, texts in SINGLE.items():
         for t in texts:
